@@ -579,7 +579,9 @@ def check_history(case):
 SCALES = ["UTC", "UTC", "TT", "TDB", "GPS", "TAI", "UT1"]
 SOURCES = ["text", "text", "lines", "from_orbit", "from_string", "tle-pickle"]
 CLONES = ["none", "none", "copy", "copy.copy", "deepcopy", "pickle"]
-ROUTES = ["date", "date", "timedelta", "iter-dates", "iter-range", "ephem", "native-date", "native-timedelta"]
+ROUTES = ["date", "date", "timedelta", "iter-dates", "iter-range", "ephem", "native-date", "native-timedelta",
+          "ephemeris", "iter-zip", "iter-interleaved", "iter-listeners", "date-keyword"]
+BUILDS = ["Tle.orbit", "Tle.orbit", "Orbit-by-name", "Orbit-by-instance", "Orbit-by-class-name-lookup"]
 HELD = ["tle", "tle", "keplerian_mean", "keplerian_mean_circular", "keplerian", "keplerian_eccentric",
         "keplerian_circular", "equinoctial"]
 # UTC midnights that follow a leap second, as (year, day of year): targets are massed around them
@@ -616,16 +618,19 @@ def spelling_case(draw):
     the year, of a leap-second midnight), where the orbit comes from, the form and frame it is held
     in, how it was cloned, and the route by which the state is asked for."""
     f = draw(gt.sgp4_fields(draw(st.sampled_from(["native", "native", "near", "deep"]))))
-    where = draw(st.sampled_from(["uniform", "uniform", "midnight", "new-year", "leap-second"]))
+    where = draw(st.sampled_from(["uniform", "uniform", "midnight", "new-year", "leap-second", "epoch"]))
     dt = draw(_DT)
-    if where != "uniform":
+    if where == "epoch":
+        # EXACTLY the epoch of the attached orbit, or a few microseconds off it
+        dt = draw(st.sampled_from([0, 0, 0, 1, -1, 2, -3, 864, -864]))
+    elif where != "uniform":
         b = _boundary_offsets(f)[where] or _boundary_offsets(f)["midnight"]
         dt = b[draw(st.integers(0, 999)) % len(b)] + draw(_NEAR)
     return dict(tle=f, dt_us=dt, where=where, date_scale=draw(st.sampled_from(SCALES)),
                 orbit_scale=draw(st.sampled_from(SCALES)), source=draw(st.sampled_from(SOURCES)),
                 held=draw(st.sampled_from(HELD)), held_frame=draw(st.sampled_from(["TEME", "TEME", "EME2000"])),
                 clone=draw(st.sampled_from(CLONES)), clone_when=draw(st.sampled_from(["fresh", "initialised"])),
-                route=draw(st.sampled_from(ROUTES)), npts=draw(st.integers(1, 4)),
+                route=draw(st.sampled_from(ROUTES)), npts=draw(st.integers(1, 4)), build=draw(st.sampled_from(BUILDS)),
                 step_us=draw(gt.uniform_int(1, 7200 * 10**6)) * draw(st.sampled_from([1, 1, -1])))
 
 
@@ -670,6 +675,19 @@ def check_spellings(case):
     if src == "tle-pickle":
         tle = pickle.loads(pickle.dumps(tle))
     orb = tle.orbit()
+    build = case.get("build", "Tle.orbit")
+    if build != "Tle.orbit":
+        # the same orbit built by hand: the propagator given by name, as an instance, or looked up by name
+        from beyond.orbits import Orbit
+        from beyond.propagators import get_propagator
+        from beyond.propagators.sgp4 import Sgp4
+
+        spec = {"Orbit-by-name": "Sgp4", "Orbit-by-instance": Sgp4(),
+                "Orbit-by-class-name-lookup": get_propagator("Sgp4")()}[build]
+        meta = dict(bstar=tle.bstar, ndot=tle.ndot, ndotdot=tle.ndotdot, name=tle.name, cospar_id=tle.cospar_id,
+                    norad_id=tle.norad_id, element_nb=tle.element_nb, revolutions=tle.revolutions)
+        orb = Orbit(tle.to_list(), tle.epoch, "TLE", "TEME", spec, **meta)
+        cls.append(f"build:{build}")
     if src == "from_orbit":
         orb = Tle.from_orbit(orb).orbit()  # the orbit of the re-written element set
     # ---- under which label its date is known
@@ -774,11 +792,50 @@ def check_spellings(case):
                 prop = _clone(prop, case["clone"] if case["clone"] != "copy" else "deepcopy")
             arg = date if route == "native-date" else _dt.timedelta(microseconds=case["dt_us"])
             judge(prop.propagate(arg), date_dt)
+        elif route == "date-keyword":
+            judge(orb.propagate(date=date), date_dt)
+        elif route in ("iter-zip", "iter-interleaved"):
+            # two iterations alive together: over one orbit (two ranges), or over two orbits built alike
+            n = max(2, case["npts"])
+            step = _dt.timedelta(microseconds=abs(case["step_us"]))
+            other = orb if route == "iter-zip" else Tle(text).orbit()
+            shift = _dt.timedelta(microseconds=abs(case["step_us"]) // 3 + 1)
+            it1 = orb.iter(start=date, stop=step * (n - 1), step=step)
+            it2 = other.iter(start=date + shift, stop=step * (n - 1), step=step)
+            firsts, seconds = [], []
+            for a, b in zip(it1, it2):
+                firsts.append(a)
+                seconds.append(b)
+            if len(firsts) != n:
+                raise Violation("spelling:count", f"{route}: {len(firsts)} pairs for {n} dates [{cls}]")
+            for k, (a, b) in enumerate(zip(firsts, seconds)):
+                for sv, t0 in ((a, date_dt), (b, date_dt + shift)):
+                    want = t0 + k * step
+                    if abs((sv.date.change_scale("UTC").datetime - want).total_seconds()) > 1.5e-6:
+                        raise Violation("spelling:date", f"{route}: point {k} dated {sv.date}, its range says {want} UTC "
+                                        f"[{cls}]")
+                    judge(sv)
+        elif route == "iter-listeners":
+            # listeners switch iter() to its event-detecting branch: every state it yields, events included,
+            # is an SGP4 state at the date it carries
+            from beyond.propagators.listeners import ApsideListener, NodeListener
+
+            n = max(2, case["npts"])
+            step = _dt.timedelta(microseconds=min(abs(case["step_us"]), 1200 * 10**6))
+            got = list(orb.iter(start=date, stop=step * (n - 1), step=step, listeners=[NodeListener(), ApsideListener()]))
+            if len(got) < n:
+                raise Violation("spelling:count", f"{route}: {len(got)} states for {n} dates [{cls}]")
+            for sv in got:
+                judge(sv)
+            if any(getattr(sv, "event", None) for sv in got):
+                cls.append("iter-with-events")
         else:
             n = case["npts"]
             # (a single-point range with a negative step is refused by Date.range: C08's subject)
             step = _dt.timedelta(microseconds=abs(case["step_us"]) if n == 1 else case["step_us"])
-            if route == "iter-dates":
+            if route == "ephemeris":
+                got = list(orb.ephemeris(start=date, stop=step * (n - 1) if n > 1 else _dt.timedelta(0), step=step))
+            elif route == "iter-dates":
                 dates = [date + k * step for k in range(n)]
                 got = list(orb.iter(dates=dates))
             elif route == "iter-range":
@@ -796,12 +853,12 @@ def check_spellings(case):
     except Violation:
         raise
     except Exception:
-        if ref_err == 0 and not (route.startswith("iter") or route == "ephem"):
+        if ref_err == 0 and not (route.startswith("iter") or route in ("ephem", "ephemeris")):
             raise
         if ref_err == 0:
             # a later point of the range may be one the reference refuses too
             step_err = [expect(date_dt + k * _dt.timedelta(microseconds=case["step_us"]))[1] for k in range(case["npts"])]
-            if not any(step_err):
+            if not any(step_err) and route not in ("iter-zip", "iter-interleaved", "iter-listeners"):
                 raise
         cls.append("reference-error-on-route")
     return dict(nt=compared > 0, cls=cls, ratio=worst)
